@@ -11,23 +11,23 @@ TB = ("TLC 1.8 and the hand-written specification (spec/*.tla); the conformance 
 CHECKS = {
  "C18": ("model_checking", "TLC explores every interleaving of the Sharing model (threads x shared immutable block x atomic count x guarded static, micro-step granularity): no read of freed storage, count = live handles, freed exactly once, every thread's values equal its sequential values, termination under weak fairness; the three negative controls (non-atomic count, unguarded static, shared scratch) must be rejected. On the code: 2..16 threads run the TLC-generated cases simultaneously on shared const operands/operators/forms; per-thread logs must be identical to the sequential log (exact scalar as text, double as bit patterns), logs are validated by TLC against the sequential contracts, use counts must return to the pre-spawn values, and the ThreadSanitizer build observes races.", "5 C18",
          "TLA+ model of the sharing protocol (all interleavings, liveness, negative controls) + threaded replay of TLC-generated cases with per-thread trace validation and TSan observer"),
- "C20": ("other", "TLC checks the diffusion solver's skeleton (move out first/last, erase first, remove last, assemble) against std::vector's preconditions for every basis size and must reject the pinned erase(end()); the repository's own example objects are run on TLC-enumerated admissible inputs in a plain build and under ASan/UBSan/_GLIBCXX_DEBUG, and the stated contracts (boundary values, scale invariance, straight line, eigenvalue shift, n+1/2, -1/n^2) are compared with tolerance.", "5 C20",
+ "C20": ("other", "TLC checks the diffusion solver's skeleton (move out first/last, erase first, remove last, assemble) against std::vector's preconditions for every basis size and must reject the pinned erase(end()); the diffusion algorithm itself is run inside the specification at reduced order with an exact solve (ExamplesAlg: end values, scale invariance, straight line); the repository's own example objects are run on TLC-enumerated admissible inputs in a plain build and under ASan/UBSan/_GLIBCXX_DEBUG, and the stated contracts (boundary values, scale invariance, straight line, eigenvalue shift, n+1/2, -1/n^2) are compared with tolerance.", "5 C20",
          "TLA+ skeleton of the example algorithm checked by TLC + conformance runs of the example objects on TLC-enumerated inputs with sanitizer observers and tolerances"),
- "C09": ("model_checking", "The specification states the index-bounds obligations (every Level-I lookup goes through a checked index; checked accessors refuse every index outside the view over the whole model word) and TLC checks them; the TLC-generated cases of ALL families (supports, splines, generator, interpolation, operator expressions with every factor placement, forms, histories) are replayed in a build with ASan + UBSan + libstdc++ assertions, where an observer report becomes an event no specification action explains; the accessor contract incl. indices 2^64-k is validated by TLC.", "5 C09",
+ "C09": ("model_checking", "The specification states the index-bounds obligations (every Level-I lookup goes through a checked index; checked accessors refuse every index outside the view over the whole model word) and TLC checks them; the TLC-generated cases of ALL families (supports, splines, generator, interpolation, operator expressions with every factor placement, forms, histories) are replayed in a build with ASan + UBSan + libstdc++ assertions, where an observer report becomes an event no specification action explains; a cross-section also runs under valgrind memcheck (uninitialised reads); the accessor contract incl. indices 2^64-k is validated by TLC.", "5 C09",
          "TLA+ index/bounds invariants checked by TLC + replay of all TLC-generated executions under sanitizer observers + trace validation"),
- "C12": ("model_checking", "TLC emits abscissa windows of uniform and strongly non-uniform grids, ordinates, orders 1..3(4) and boundary sets (default, one-sided, mixed, invalid); the real interpolate<Rat, order, exact Gauss solver> runs every case and TLC accepts the returned spline iff InterpPost holds exactly (node values from both adjacent pieces, continuity of derivatives 1..order-1, every boundary row) and the ISolver protocol was followed; a singular report is accepted only outside the sets shown uniquely solvable. The bundled dense (Eigen) route is covered through C20's examples and the floating families, not claimed here.", "5 C12",
+ "C12": ("model_checking", "TLC emits abscissa windows of uniform and strongly non-uniform grids, ordinates, orders 1..3(4) and boundary sets (default, one-sided, mixed, invalid); the real interpolate<Rat, order, exact Gauss solver> runs every case and TLC accepts the returned spline iff InterpPost holds exactly (node values from both adjacent pieces, continuity of derivatives 1..order-1, every boundary row) and the ISolver protocol was followed; a singular report is accepted only outside the sets shown uniquely solvable. The bundled dense (Eigen) route runs the same inputs in float, double and long double; the residual of every interpolation condition, evaluated in __float128, must stay within 2^20 eps (||M|| ||x|| + ||b||).", "5 C12",
          "TLA+ relational post-condition + TLC-generated cases + exact-solver execution of the real routine + trace validation"),
  "C16": ("exploration", "For float, double and long double the real library runs the TLC-generated well-scaled dyadic cases (generator, evaluation, + - *, operator application, linear and bilinear forms); TLC supplies the exact value E and the abs-mode magnitude S (checked by TLC to dominate |E|); the harness evaluates |F-E| <= 2^20 eps S in __float128 and TLC judges the recorded verdicts; builds with and without BSPLINE_ADD_TEST_CHECKS must agree bit for bit (thorough: -O0/-O3/clang too).", "5 C16",
          "TLC-generated cases with exact reference and magnitude from the TLA+ spec + floating-point replay of the real code against the stated relation"),
  "C17": ("exploration", "integrate<n> (n = 1..6, polynomial weights of degree 0..3, double and long double) on TLC-generated spline pairs on both sides of the exactness bound; TLC supplies the exact weighted integral over the common intervals and its magnitude; the relation is required where 2n-1 >= o1+o2+d, only 'zero when disjoint' elsewhere.", "5 C17",
          "TLC-generated cases with exact integral from the TLA+ spec + floating-point replay against the stated relation"),
- "C08": ("model_checking", "Every multi-spline entry point is run on TLC-enumerated grid variants (one point moved, extra point front/back/inside, prefix, suffix, equal copy in a distinct object) and placements: stateless events for + - * += -= linearCombination, supports, operators/forms with a foreign spline factor, generator with a supplied grid; plus TLC-generated histories with interleaved cross-grid calls validated sequentially (Trace_Life): refusal with DIFFERING_GRIDS, nothing returned, arguments unchanged; equal grids in distinct objects behave as one.", "5 C08",
+ "C08": ("model_checking", "Every multi-spline entry point is run on TLC-enumerated grid variants (one point moved, extra point front/back/inside, prefix, suffix, equal copy in a distinct object) and placements: stateless events for + - * += -= linearCombination, supports, operators/forms with a foreign spline factor, generator with a supplied grid, integrate<n> in double/long double; plus TLC-generated histories with interleaved cross-grid calls validated sequentially (Trace_Life): refusal with DIFFERING_GRIDS, nothing returned, arguments unchanged; equal grids in distinct objects behave as one.", "5 C08",
          "TLA+ spec + TLC-generated cases and histories + stateless and sequential trace validation of refusals and frame conditions"),
  "C10": ("model_checking", "TLC checks PoolValid and the step contracts on the model of the object-pool state machine (MC_Life: simulation seeded with VERIF_SEED and exhaustive BFS of all two-command continuations) and emits the histories; real objects execute them (builds with and without BSPLINE_ADD_TEST_CHECKS) and the sequential trace specification Trace_Life evaluates the class invariants on every logged object after every step, incl. moved-from objects and failed calls; stateless results of all arithmetic are checked for validity too.", "5 C10",
          "TLA+ object-pool state machine + TLC simulation/BFS history generation + sequential trace validation (invariants after every step)"),
  "C14": ("model_checking", "Same histories as C10; the harness logs the projection delta of ALL live slots after every call, coefficient-storage aliasing, grid block contents and use counts; Trace_Life accepts a step only if nothing outside the declared target changed, a throwing step changed nothing, no storage is aliased and no grid block was written. Stateless events additionally compare every operand before/after each call.", "5 C14",
          "TLA+ frame conditions (action properties) + sequential trace validation of logged deltas of the whole pool"),
- "C01": ("model_checking", "TLC checks on every enumerated knot vector that the Cox-de Boor definition has local support, partition of unity, C^{p-mu} smoothness, non-negativity and the integral identity, and that the implementation-shaped recursion (zeroth order via findElement, then prefac*(X<1>-t_i)*B_i += ...) refines it; the real generator (both routes and the free function, exact scalar) runs every knot vector and TLC accepts the logged basis iff GenPost holds.", "5 C01",
+ "C01": ("model_checking", "TLC checks on every enumerated knot vector that the Cox-de Boor definition has local support, partition of unity, C^{p-mu} smoothness, non-negativity and the integral identity, and that the implementation-shaped recursion (zeroth order via findElement, then prefac*(X<1>-t_i)*B_i += ...) refines it; the real generator (both routes and the free function, exact scalar) runs every knot vector and TLC accepts the logged basis iff GenPost holds; float, double and long double runs (incl. knots scaled exactly by 2^-60) are compared with the spec's exact basis and magnitude.", "5 C01",
          "TLA+ spec of the Cox-de Boor recursion + TLC model checking of its theorems and of the implementation-shaped model + trace validation of generated bases from the real code"),
  "C04": ("model_checking", "TLC checks falling-factorial derivative and binomial position expansion (Level I) against d^n/du^n and n-fold multiplication by (u+xm) (Level A); the real Dx<n>, X<n>, IdentityOperator are applied with the exact scalar to unit-vector and generic splines on every window incl. an off-origin grid and validated by TLC.", "5 C04",
          "TLA+ spec + TLC model checking + trace validation of TLC-enumerated (operator, spline) cases compiled from the spec's ASTs"),
@@ -45,7 +45,7 @@ CHECKS = {
          "TLA+ spec + TLC model checking (I=>A) + TLC-generated cases replayed in the real code, events validated by TLC against the Level-A contract"),
  "C03": ("model_checking", "TLC checks that the implementation-shaped models of + - * scalar ops, cross-order assignment and linearCombination satisfy the Den-level contracts on every explored operand pair, and emits the pairs; the real operators (exact scalar) execute every case and TLC validates every recorded result against the contract (view C03).", "5 C03",
          "TLA+ spec + TLC model checking (I=>A, algebraic laws) + trace validation of TLC-generated cases executed by the real code"),
- "C13": ("model_checking", "TLC checks the support lattice laws, Level I => Level A for union/intersection/equality/index conversions over the whole model index word, and emits all windows, pairs, triples and index arguments (incl. 2^64-k) of the domain; real Support<Rat> objects execute them and TLC validates every recorded result on the representation (view C13).", "5 C13",
+ "C13": ("model_checking", "Apalache discharges the window lattice laws and the index-conversion guards over unbounded integers with the true modulus 2^64 (and refutes the pinned formulations); TLC checks the support lattice laws, Level I => Level A for union/intersection/equality/index conversions over the whole model index word, and emits all windows, pairs, triples and index arguments (incl. 2^64-k) of the domain; real Support<Rat> objects execute them and TLC validates every recorded result on the representation (view C13).", "5 C13",
          "TLA+ spec + TLC exhaustive model checking of the index/window algebra + trace validation of all enumerated calls on real Support objects"),
  "C15": ("model_checking", "TLC checks IsZeroI/OverlapI/SplEqI against their contracts on every explored spline/pair and emits them; isZero, checkOverlap, ==, != of the real code are validated by TLC per event (view C15).", "5 C15",
          "TLA+ spec + TLC model checking + trace validation of predicates on TLC-enumerated spline pairs"),
